@@ -2,7 +2,6 @@ package main
 
 import (
 	"fmt"
-	"go/ast"
 	"go/token"
 	"go/types"
 	"sort"
@@ -325,24 +324,16 @@ func ruleFrame(c *Ctx) {
 // ruleEmitLemmas: the two lemmas EMIT's normalisation uses are true of the code.
 func ruleEmitLemmas(c *Ctx) {
 	p := c.P
-	// T.szu-small: SizeVarUint returns 1 for v < 0x80
-	fn := p.findFunc("plenccore", "", "SizeVarUint")
+	// T.szu-small: SizeVarUint returns 1 for v < 0x80 - by abstract execution of
+	// its body for every bit length 0..7 (BITLEN), so the shape of the function
+	// does not matter
 	ok := false
-	if fn != nil {
-		E := newEmit(p)
-		// evaluate without the szu atom: read the first statement structurally
-		_ = E
-		if len(fn.Decl.Body.List) > 0 {
-			if ifs, isIf := fn.Decl.Body.List[0].(*ast.IfStmt); isIf && len(ifs.Body.List) == 1 {
-				if be, isBin := ifs.Cond.(*ast.BinaryExpr); isBin && be.Op == token.LSS {
-					if v, isC := constInt(fn.Pkg.TypesInfo, be.Y); isC && v == 0x80 {
-						if ret, isRet := ifs.Body.List[0].(*ast.ReturnStmt); isRet && len(ret.Results) == 1 {
-							if r, isC := constInt(fn.Pkg.TypesInfo, ret.Results[0]); isC && r == 1 {
-								ok = true
-							}
-						}
-					}
-				}
+	if sz := p.ssaFunc("plenccore.SizeVarUint"); sz != nil {
+		ok = true
+		for L := int64(0); L <= 7; L++ {
+			rs, _, why := blExec(sz, []blVal{{blBits, L}})
+			if why != "" || len(rs) != 1 || rs[0].kind != blInt || rs[0].n != 1 {
+				ok = false
 			}
 		}
 	}
